@@ -1,13 +1,27 @@
 //!
 //! IPP stream parser
 //!
+#[cfg(not(kani))]
 use std::{
     collections::BTreeMap,
     io::{self, Read},
 };
+#[cfg(kani)]
+use std::io::{self, Read};
+#[cfg(kani)]
+use crate::verif_shim::BTreeMap;
 
 use bytes::Bytes;
+#[cfg(not(kani))]
 use log::{error, trace};
+#[cfg(kani)]
+macro_rules! trace {
+    ($($t:tt)*) => {};
+}
+#[cfg(kani)]
+macro_rules! error {
+    ($($t:tt)*) => {};
+}
 
 #[cfg(feature = "async")]
 use {crate::reader::AsyncIppReader, futures_util::io::AsyncRead};
@@ -43,6 +57,15 @@ fn list_or_value(mut list: Vec<IppValue>) -> IppValue {
     }
 }
 
+// Verification hook: same initial content as `vec![vec![]]`, with spare capacity so that the model
+// checker does not have to reason about a re-allocation of the stack itself.
+#[cfg(kani)]
+fn verif_context() -> Vec<Vec<IppValue>> {
+    let mut context = Vec::with_capacity(8);
+    context.push(vec![]);
+    context
+}
+
 struct ParserState {
     current_group: Option<IppAttributeGroup>,
     last_name: Option<String>,
@@ -55,7 +78,10 @@ impl ParserState {
         ParserState {
             current_group: None,
             last_name: None,
+            #[cfg(not(kani))]
             context: vec![vec![]],
+            #[cfg(kani)]
+            context: verif_context(),
             attributes: IppAttributes::new(),
         }
     }
